@@ -166,9 +166,9 @@ func c02Table(c *core.Ctx, f *core.FSM) {
 // C02.2b: no store to the persisted Status field outside the confirmed writers.
 func c02StatusStores(r *R) {
 	allowed := map[string]string{
-		"(*channels.Channels).CreateNew":                           "initial record",
-		"channels/internal/migrations.MigrateChannelState2To3":     "schema migration",
-		"(*channels/internal.ChannelState).UnmarshalCBOR":          "generated decoder",
+		"(*channels.Channels).CreateNew":                               "initial record",
+		"channels/internal/migrations.MigrateChannelState2To3":         "schema migration",
+		"(*channels/internal.ChannelState).UnmarshalCBOR":              "generated decoder",
 		"(*channels/internal/migrations.ChannelStateV2).UnmarshalCBOR": "generated decoder of the old schema",
 	}
 	n := 0
